@@ -26,6 +26,7 @@ mod runner;
 mod shrink;
 mod simvec;
 mod stream;
+mod typed;
 
 use std::collections::BTreeMap;
 use std::time::Instant;
@@ -105,6 +106,7 @@ fn profile_label(args: &Args) -> String {
 }
 
 fn replay_file_json(
+    label: &str,
     prop: &str,
     seed: u64,
     f: &Found,
@@ -122,6 +124,7 @@ fn replay_file_json(
         ("source", J::s(f.source)),
         ("run", J::Int(f.run as i64)),
         ("profile", J::s(profile_name())),
+        ("build_label", J::s(label)),
         ("minimisation_executions", J::Int(spent as i64)),
         ("program", minimised.to_j()),
         ("original_program", f.program.to_j()),
@@ -278,6 +281,7 @@ fn supervise_run(args: &Args) -> ! {
             ("detail", J::s(&format!("the process executing the batch died ({})", describe(&out.status)))),
             ("seed", J::Int(seed as i64)),
             ("profile", J::s(profile_name())),
+            ("build_label", J::s(&profile_label(args))),
         ];
         o.extend(extra);
         J::obj(o)
@@ -436,7 +440,7 @@ fn cmd_run(args: &Args, digest_only: bool) -> ! {
             f.source.replace('/', "_"),
             f.run
         );
-        let j = replay_file_json(&prop, seed, f, &min_p, &min_v, spent);
+        let j = replay_file_json(&profile_label(args), &prop, seed, f, &min_p, &min_v, spent);
         if let Err(e) = std::fs::write(&fname, j.pretty()) {
             harness_fail(&format!("cannot write {fname}: {e}"));
         }
